@@ -232,3 +232,63 @@ example :
     = [.str [103, 47, 49], .str [71, 58, 49],
        .recs [⟨[71], [103, 47], [[88], [103], [120]], [[104, 47], [122, 47]], none⟩]] := by
   decide
+
+
+theorem filter_length_one {α} (p : α → Bool) (l : List α) (j : Nat) (hj : j < l.length)
+    (hothers : ∀ i (hi : i < l.length), i ≠ j → p l[i] = false) (hjt : p l[j] = true) :
+    (l.filter p).length = 1 := by
+  induction l generalizing j with
+  | nil => simp at hj
+  | cons a as ih =>
+    cases j with
+    | zero =>
+      have hall : ∀ x ∈ as, p x = false := by
+        intro x hx
+        obtain ⟨i, hi, rfl⟩ := List.mem_iff_getElem.mp hx
+        have := hothers (i + 1) (by simp; omega) (by omega)
+        simpa using this
+      have ha : p a = true := by simpa using hjt
+      rw [List.filter_cons, if_pos ha]
+      have : as.filter p = [] := List.filter_eq_nil_iff.mpr (fun x hx => by simp [hall x hx])
+      simp [this]
+    | succ j' =>
+      have ha : p a = false := by
+        have := hothers 0 (by simp) (by omega)
+        simpa using this
+      rw [List.filter_cons, if_neg (by simp [ha])]
+      exact ih j' (by simpa using hj) (fun i hi hne => by
+        have := hothers (i + 1) (by simp; omega) (by omega)
+        simpa using this) (by simpa using hjt)
+
+theorem filter_length_two {α} [DecidableEq α] (p : α → Bool) (l : List α) (x y : α) (hx : x ∈ l) (hy : y ∈ l) (hne : x ≠ y)
+    (hpx : p x = true) (hpy : p y = true) : 1 < (l.filter p).length := by
+  have hx' : x ∈ l.filter p := List.mem_filter.mpr ⟨hx, hpx⟩
+  have hy' : y ∈ l.filter p := List.mem_filter.mpr ⟨hy, hpy⟩
+  generalize l.filter p = f at hx' hy'
+  match f, hx', hy' with
+  | [], h, _ => cases h
+  | [a], h1, h2 =>
+    simp only [List.mem_singleton] at h1 h2
+    exact absurd (h1.trans h2.symm) hne
+  | _ :: _ :: _, _, _ => simp
+
+/-- **C05 (which calls are rejected).** `add_record` raises exactly when the new record matches several
+existing records, or one without `merge` — "matches" meaning one of the eight comparisons of
+`_match_record` hits, exactly or up to case — and then it raises `ValueError`. -/
+theorem C05_reject_iff (fold : Str → Str) {c : Conv} (h : WF c) (r : Record) (cs merge : Bool) :
+    (∃ e, c.addRecord fold r cs merge = .error e) ↔
+      (1 < (c.records.filter fun x => matchesRec fold cs r x).length ∨
+        ((c.records.filter fun x => matchesRec fold cs r x).length = 1 ∧ merge = false)) := by
+  rcases addRecord_spec fold h r cs merge with ⟨hnone, e⟩ | ⟨j, hj, hothers, hjt, e⟩ | ⟨⟨x, hx, y, hy, hne, hpx, hpy⟩, e⟩
+  · have : c.records.filter (fun x => matchesRec fold cs r x) = [] :=
+      List.filter_eq_nil_iff.mpr (fun x hx => by simp [hnone x hx])
+    rw [e, this]
+    simp
+  · have hl := filter_length_one (fun x => matchesRec fold cs r x) c.records j hj hothers hjt
+    rw [e, hl]
+    cases merge <;> simp
+  · have hl := filter_length_two (fun x => matchesRec fold cs r x) c.records x y hx hy hne hpx hpy
+    rw [e]
+    constructor
+    · intro _; exact Or.inl hl
+    · intro _; exact ⟨_, rfl⟩
